@@ -3,7 +3,7 @@
 // Conformance harness for property C19 (wire codec and framing).
 //
 // Reads the abstract case products enumerated by TLC from spec/Codec.tla (directory VERIF_IN:
-// cases_msg.ndjson, cases_wire.ndjson, cases_val.ndjson, cases_req.ndjson, cases_vc.ndjson),
+// cases_msg.ndjson, cases_wire.ndjson, cases_val.ndjson, cases_req.ndjson, cases_vc.ndjson, cases_fr.ndjson, cases_ar.ndjson),
 // concretises every case with seeded values, runs the REAL encode / decode / framing paths and
 // records, per case, which members survived (VERIF_OUT, ndjson) for the TLA+ monitor CodecMon.
 // Nothing is judged here: the harness only compares and reports.
@@ -2986,7 +2986,12 @@ func c19FrHTTPClient(c c19FrCase, mk func(respID string) []byte, tag string) (ou
 		return "error", "set-up: connect: " + err.Error(), nil
 	}
 	defer c19CloseWithin(func() { cs.Close() })
-	// the call whose response is the frame
+	// the call whose response is the frame: it ends with its response or with the connection, except that a
+	// frame that is a request or a notification (a message, but not the response) leaves it pending
+	grace := c19FrLimit
+	if c.Shape == "obj-msg" || c.Shape == "obj-notif" {
+		grace = 300 * time.Millisecond
+	}
 	p1, p1cancel := context.WithTimeout(ctx, c19FrLimit)
 	defer p1cancel()
 	done := make(chan error, 1)
@@ -2996,7 +3001,7 @@ func c19FrHTTPClient(c c19FrCase, mk func(respID string) []byte, tag string) (ou
 		if err != nil {
 			note = "call answered by the frame: " + err.Error()
 		}
-	case <-time.After(300 * time.Millisecond): // a frame that is a message but not the response leaves the call pending
+	case <-time.After(grace):
 		note = "call answered by the frame: still pending"
 	}
 	rt.mu.Lock()
